@@ -14,6 +14,9 @@
          callback of the driver (constant time per invocation; for values of thousands of chunks) -> as c07_xer with k < 0
      c07_xer_tobuf <can> <tag> <xv> <size>     -> as c07_tobuf
      c07_xer_newbuf <can> <tag> <xv>           -> as c07_newbuf
+     c07_int <can> <tag> <contents hex> <k>    asn_encode over xer_encode around the chunked INTEGER dump (Rt/XerChunk.v:
+         INTEGER__dump, decimal within intmax_t, xx:yy:zz through the 32-octet scratch beyond) -> as c07_xer
+     c07_int_tobuf <can> <tag> <contents> <size>, c07_int_newbuf <can> <tag> <contents>   -> as c07_tobuf / c07_newbuf
    xv := B0 | B1 | N | I<decimal>; | O<hex>; | S{<name>:<xv>...} | C<name>:<xv> | X (CHOICE, nothing selected)
        | M (NULL pointer) | Q<mode>{<xv>...} (SEQUENCE OF) | T<mode>{<xv>...} (SET OF)
    mode := i<element name>: | v<element xml tag>: | c<element xml tag>:    (as_XMLValueList 0 / 1 / 2) *)
@@ -130,6 +133,31 @@ let dispatch cmd args =
        | Aborted n -> Some (Printf.sprintf "ABORT %d" (int_of_nat n)))
   | "c07_xer_newbuf", [can; tag; v] ->
       (match model_xer_newbuf (can = "1") (zs_of_string tag) (parse_xv v) with
+       | Done res ->
+           Some (Printf.sprintf "ret=%s errno=%s buf=%s" (string_of_cz res.nb_result.encoded) (errno_s res.nb_result.err)
+                   (match res.nb_buffer with Some bs -> hex_of_bytes bs | None -> "NULL"))
+       | Aborted n -> Some (Printf.sprintf "ABORT %d" (int_of_nat n)))
+  | "c07_int", [can; tag; content; k] ->
+      (* the chunked INTEGER dump (Rt/XerChunk.v) inside xer_encode, through the modelled asn_encode *)
+      let k = int_of_string k in
+      let ko = if k < 0 then None else Some (nat_of_int k) in
+      let c = if content = "-" then [] else bytes_of_hex content in
+      (match model_int_xer (can = "1") (zs_of_string tag) c ko with
+       | Done (((calls, acc)), r) ->
+           let sizes = if acc = [] then "-" else String.concat "," (List.map (fun c -> string_of_int (List.length c)) acc) in
+           Some (Printf.sprintf "ret=%s errno=%s calls=%d sizes=%s hex=%s" (string_of_cz r.encoded) (errno_s r.err) (int_of_nat calls) sizes (hexcat acc))
+       | Aborted n -> Some (Printf.sprintf "ABORT %d" (int_of_nat n)))
+  | "c07_int_tobuf", [can; tag; content; size] ->
+      let n = int_of_string size in
+      let mem = List.init n (fun _ -> cz_of_int 0xa5) in
+      let c = if content = "-" then [] else bytes_of_hex content in
+      (match model_int_xer_tobuf (can = "1") (zs_of_string tag) c mem (cz_of_int n) with
+       | Done (st, r) ->
+           Some (Printf.sprintf "ret=%s errno=%s oob=%d buf=%s" (string_of_cz r.encoded) (errno_s r.err) (if st.o_oob then 1 else 0) (hex_of_bytes st.o_mem))
+       | Aborted n -> Some (Printf.sprintf "ABORT %d" (int_of_nat n)))
+  | "c07_int_newbuf", [can; tag; content] ->
+      let c = if content = "-" then [] else bytes_of_hex content in
+      (match model_int_xer_newbuf (can = "1") (zs_of_string tag) c with
        | Done res ->
            Some (Printf.sprintf "ret=%s errno=%s buf=%s" (string_of_cz res.nb_result.encoded) (errno_s res.nb_result.err)
                    (match res.nb_buffer with Some bs -> hex_of_bytes bs | None -> "NULL"))
